@@ -371,6 +371,8 @@ def execBuild (b : Sexp) (bufs : List Sexp) : Out := Id.run do
     if !standalone then
       o := o.push ("size", resW w.calcSize)
       o := o.push ("getpad", optPad w.getPadding)
+      -- the model has one `calculate_size`: the trait path is the same function
+      o := o.push ("size_trait_same", "true")
     let mut j := 0
     for spec in bufs do
       match spec with
@@ -387,6 +389,11 @@ def execBuild (b : Sexp) (bufs : List Sexp) : Out := Id.run do
           match r with
           | .ok _ => o := o.push (s!"w{j}.rewrite_same", "true")
           | _ => pure ()
+          -- the same write through the trait path (`RtcpPacketWriterExt::write_into`): the model
+          -- has one writer; chunk / item builders have no trait path, a panicked write no repeat
+          match r with
+          | .panic => pure ()
+          | _ => if !standalone then o := o.push (s!"w{j}.trait_same", "true")
         | _, _ => return #[("bad-request", "bufspec")]
       | _ => return #[("bad-request", "bufspec")]
       j := j + 1
@@ -568,7 +575,7 @@ def execRequest (line : String) : Out :=
         | _ =>
           let w := cfg.toWriter
           let v := cfg.violations
-          #[("size", resW w.calcSize), ("getpad", optPad w.getPadding),
+          #[("size", resW w.calcSize), ("getpad", optPad w.getPadding), ("size_trait_same", "true"),
             ("spec.viol", if v.isEmpty then "-" else String.intercalate ";" (v.map renderWriteError))]
   | some (.list (.atom "helper" :: args)) => execHelper args
   | _ => #[("bad-request", "syntax")]
